@@ -644,6 +644,13 @@ def rule_drv_layout(ctx):
             if lay:
                 parts.setdefault('result reshape', []).append((lay, st))
             continue
+        # the adjoint of the independent variable reshaped into a local that is returned later: `xbar = <..>.xbar.data.reshape((D, P, M) + shp)`
+        if isinstance(st, ast.Assign) and len(st.targets) == 1 and isinstance(st.targets[0], ast.Name) \
+                and any(isinstance(x_, ast.Attribute) and x_.attr == 'xbar' for x_ in ast.walk(st.value)):
+            lay = _layout_of(st, Pn, Mn)
+            if lay:
+                parts.setdefault('result reshape', []).append((lay, st))
+                continue
         bases = set()
         if isinstance(st, (ast.Assign, ast.AugAssign)):
             for t in (st.targets if isinstance(st, ast.Assign) else [st.target]):
